@@ -44,7 +44,7 @@ MANIFEST = dict(
 FUZZ_TARGETS = ["dms_decode", "dms_latlon", "dms_angle", "dms_azimuth", "utility_val", "utility_fract",
                 "utility_nummatch", "geocoords_reset"]
 FUZZ_RUNS = {"quick": 150000, "thorough": 5000000}       # executions per libFuzzer process
-FUZZ_JOBS = {"quick": 1, "thorough": 2}                   # processes per target (different seeds)
+FUZZ_JOBS = {"quick": 1, "thorough": 1}                   # processes per target
 
 # documented symbol code points (DMS.hpp doc) -> dictionary for the mutator
 _CP = [0xb0, 0xba, 0x2070, 0x2da, 0x2218, 0x2032, 0x2035, 0xb4, 0x2018, 0x2019, 0x201b, 0x2b9, 0x2ca, 0x2cb,
@@ -474,9 +474,9 @@ def extra(res, tier, seed, workdir):
     os.makedirs(shm)
     procs = []
     try:
-        # the libFuzzer processes (8 or 16) run while the CLI monitor works; never more than 16 processes in total
+        # the 8 libFuzzer processes run while the CLI monitor works with 8 workers: never more than 16 processes in total
         procs, t0 = _fuzz_start(res, tier, seed, shm)
-        _cli(res, tier, seed, shm, workers=8 if tier == "quick" else 2)
+        _cli(res, tier, seed, shm, workers=8)
         _fuzz_collect(res, tier, seed, procs, t0)
     finally:
         for pr in procs:
